@@ -31,8 +31,11 @@ type Opts struct {
 	Special bool // allow the special 2D profile leaves (cams, flange, rack, spiral, threads, text)
 	NoPoly  bool // no polygon leaves
 	NoBlend bool // no PolyMin/PolyMax blends
-	Bezier  bool // allow Bezier-outlined leaves (their construction consumes the library-private random source)
-	NoText  bool // no text leaves
+	// AllBlends: union blends are drawn among PolyMin, RoundMin, ChamferMin and ExpMin, and arrays / rotate-unions
+	// get a blend (SetMin) in a third of the cases. For checks that do not use the reference interpreter.
+	AllBlends bool
+	Bezier    bool // allow Bezier-outlined leaves (their construction consumes the library-private random source)
+	NoText    bool // no text leaves
 	// RandLeaf: every 2D leaf is one of those whose construction consumes the library-private random
 	// source (Bezier outline, and text unless NoText); needs Special and Grammar Full
 	RandLeaf bool
@@ -316,9 +319,31 @@ func (x *gen) blendMin() (string, []float64) {
 	// C01:blend-fillet-outside-box); as an operand of the box-pruned 2D union that material is dropped.
 	// Operands of 2D unions are therefore generated without blends: the class is excluded by construction.
 	if !x.o.NoBlend && !x.o.inUnion2 && x.intr("blend", 0, 3) == 0 {
+		if x.o.AllBlends {
+			return x.anyBlend()
+		}
 		return "PolyMin", []float64{g.LogUniform(x.t, x.lbl("k"), 1e-3*x.o.S, x.o.S)}
 	}
 	return "", nil
+}
+
+// anyBlend draws one of the library's minimum blends with a parameter in its useful range.
+func (x *gen) anyBlend() (string, []float64) {
+	name := x.pick("blend-name", []string{"RoundMin", "PolyMin", "ChamferMin", "ExpMin"})
+	if name == "ExpMin" {
+		return name, []float64{g.LogUniform(x.t, x.lbl("k"), 1/x.o.S, 32/x.o.S)}
+	}
+	return name, []float64{g.LogUniform(x.t, x.lbl("k"), 1e-2*x.o.S, x.o.S)}
+}
+
+// patternBlend gives an array / rotate-union node a blend (its parameter is appended to P).
+func (x *gen) patternBlend(n *Node) *Node {
+	if x.o.AllBlends && !x.o.inUnion2 && x.intr("pattern-blend", 0, 2) == 0 {
+		name, k := x.anyBlend()
+		n.S = name
+		n.P = append(n.P, k[0])
+	}
+	return n
 }
 
 func (x *gen) blendMax() (string, []float64) {
@@ -412,7 +437,7 @@ func (x *gen) node3(depth int) *Node {
 			}
 			return s
 		}
-		return &Node{Op: "array3", K: []*Node{x.node3(depth - 1)}, I: []int{x.intr("nx", 1, 3), x.intr("ny", 1, 3), x.intr("nz", 1, 2)}, P: []float64{step(), step(), step()}}
+		return x.patternBlend(&Node{Op: "array3", K: []*Node{x.node3(depth - 1)}, I: []int{x.intr("nx", 1, 3), x.intr("ny", 1, 3), x.intr("nz", 1, 2)}, P: []float64{step(), step(), step()}})
 	case "rotcopy3":
 		n := x.intr("n", 1, 12)
 		k := x.node3(depth - 1)
@@ -433,7 +458,7 @@ func (x *gen) node3(depth int) *Node {
 		if x.intr("thk", 0, 2) == 0 {
 			th = x.angle("th")
 		}
-		return &Node{Op: "rotunion3", K: []*Node{x.node3(depth - 1)}, I: []int{n}, P: []float64{th}}
+		return x.patternBlend(&Node{Op: "rotunion3", K: []*Node{x.node3(depth - 1)}, I: []int{n}, P: []float64{th}})
 	case "extrude":
 		return &Node{Op: "extrude", K: []*Node{x.node2(depth - 1)}, P: []float64{x.length("h", 0.05, 2)}}
 	case "twist":
@@ -631,7 +656,7 @@ func (x *gen) node2(depth int) *Node {
 			}
 			return s
 		}
-		return &Node{Op: "array2", K: []*Node{x.node2(depth - 1)}, I: []int{x.intr("nx", 1, 4), x.intr("ny", 1, 3)}, P: []float64{step(), step()}}
+		return x.patternBlend(&Node{Op: "array2", K: []*Node{x.node2(depth - 1)}, I: []int{x.intr("nx", 1, 4), x.intr("ny", 1, 3)}, P: []float64{step(), step()}})
 	case "rotcopy2":
 		n := x.intr("n", 1, 12)
 		k := x.union2Operand(depth - 1) // the operand is wrapped in a 2D union with its mirror image below
@@ -649,7 +674,7 @@ func (x *gen) node2(depth int) *Node {
 		if x.intr("thk", 0, 2) == 0 {
 			th = x.angle("th")
 		}
-		return &Node{Op: "rotunion2", K: []*Node{x.node2(depth - 1)}, I: []int{n}, P: []float64{th}}
+		return x.patternBlend(&Node{Op: "rotunion2", K: []*Node{x.node2(depth - 1)}, I: []int{n}, P: []float64{th}})
 	case "slice2":
 		nv := x.dir3("n")
 		return &Node{Op: "slice2", K: []*Node{x.node3(depth - 1)}, P: []float64{x.coord("ax", 0.3), x.coord("ay", 0.3), x.coord("az", 0.3), nv[0], nv[1], nv[2]}}
